@@ -55,7 +55,8 @@ func main() {
 	tier := fs.String("tier", envOr("VERIF_TIER", "quick"), "quick|thorough")
 	verbose := fs.Bool("v", false, "print every obligation")
 	repo := fs.String("repo", "/repo", "repository")
-	verif := fs.String("verif", "/verif", "verif dir")
+	verif := fs.String("verif", "/verif", "verif dir (known_findings.json)")
+	out := fs.String("out", "", "directory receiving evidence/ (default: the verif dir)")
 	overlay := fs.String("overlay", "", "comma-separated /repo/file.go=/path/replacement.go (self-tests only)")
 	fs.Parse(os.Args[3:])
 	seed, _ := strconv.Atoi(os.Getenv("VERIF_SEED"))
@@ -74,6 +75,10 @@ func main() {
 			fmt.Fprintf(os.Stderr, "BROKEN: no check registered for %s\n", id)
 			os.Exit(2)
 		}
+	}
+	outDir := *verif
+	if *out != "" {
+		outDir = *out
 	}
 	ff, err := core.LoadFindings(*verif + "/known_findings.json")
 	if err != nil {
@@ -104,8 +109,8 @@ func main() {
 	fmt.Printf("loaded %d packages (%d of the module) from %s in %.1fs\n", len(lp.Order), len(lp.Mod), *repo, loadWall)
 	exit := 0
 	for _, id := range list {
-		r := core.RunOne(p, core.Registry[id], *tier, seed, ff, *verif, loadWall)
-		e := r.Print(*verbose, *verif)
+		r := core.RunOne(p, core.Registry[id], *tier, seed, ff, outDir, loadWall)
+		e := r.Print(*verbose, outDir)
 		if e == 1 || (e == 2 && exit == 0) {
 			exit = e
 		}
